@@ -244,7 +244,7 @@ func buildVlog(dir string, r *rand.Rand) (*artefact, error) {
 }
 
 func dbConfig() dbx.Config {
-	return dbx.Config{Engine: "skiplist", ValueThreshold: 96, Buckets: 1, VlogFileSize: 64 << 10, ManifestRewrite: 64 << 20, Controlled: true, MemTableSize: 1 << 20, L0Tables: 1000, SyncWrites: true}
+	return dbx.Config{Engine: "skiplist", ValueThreshold: 96, Buckets: 1, VlogFileSize: 64 << 10, ManifestRewrite: 64 << 20, Controlled: true, MemTableSize: 1 << 20, L0Tables: 1000, SyncWrites: true, HotRing: true}
 }
 
 func copyTree(src, dst string, skip func(rel string) bool) error {
@@ -549,7 +549,7 @@ func readVlog(dir string, m meta, res *result) {
 	}
 }
 
-func readDB(dir string, m meta, res *result) {
+func readDB(dir string, m meta, res *result, flippedFile string) {
 	guard("open", res, func() {
 		db, err := dbx.OpenCfg(m.DB, dir)
 		if err != nil {
@@ -569,6 +569,33 @@ func readDB(dir string, m meta, res *result) {
 				}
 				res.Obs = append(res.Obs, obs{R: "get", K: hk, V: desc(e.Value)})
 			})
+		}
+		// Hot-key prefetch path: keys read often are prefetched (their blocks are
+		// loaded into the block cache by a background loop, for every table that
+		// overlaps the key). A block that reaches the cache that way must have
+		// been verified like any other: read every readable key 20 times, give the
+		// prefetch loop a moment, then read everything again.
+		if m.DB.HotRing && strings.HasSuffix(flippedFile, ".sst") {
+			for round := 0; round < 20; round++ {
+				for _, hk := range m.Keys {
+					k, _ := hex.DecodeString(hk)
+					guard("get", res, func() { _, _ = db.Get(k) })
+				}
+			}
+			time.Sleep(80 * time.Millisecond)
+			for _, hk := range m.Keys {
+				k, _ := hex.DecodeString(hk)
+				guard("get-after-prefetch", res, func() {
+					e, err := db.Get(k)
+					if err != nil {
+						if !errors.Is(err, utils.ErrKeyNotFound) {
+							res.err("get-after-prefetch", err)
+						}
+						return
+					}
+					res.Obs = append(res.Obs, obs{R: "get", K: hk, V: desc(e.Value)})
+				})
+			}
 		}
 		guard("iter", res, func() {
 			it := db.NewIterator(&utils.Options{IsAsc: true})
@@ -643,7 +670,7 @@ func worker(args []string) int {
 		case "vlog":
 			readVlog(run, m, &res)
 		case "db":
-			readDB(run, m, &res)
+			readDB(run, m, &res, file)
 		}
 		wd.Stop()
 		_ = os.RemoveAll(run)
